@@ -282,7 +282,27 @@ func main() {
 	for i := 0; i < 64; i++ { // slack so that further draws do not wrap into id1
 		collide = append(collide, byte(200+i%40))
 	}
-	scripts := [][]byte{nil, collide}
+	// a third script: the third session's first code collides with the first session's and the
+	// replacement with the second session's (two collisions inside one Create): id1 X id2 Y id3 X Y Z
+	first := collide
+	collide = []byte{}
+	id(10)
+	code(1)
+	id(50)
+	code(2)
+	id(90)
+	code(1)
+	code(2)
+	code(3)
+	id(130)
+	code(1)
+	code(3)
+	code(2)
+	code(4)
+	for i := 0; i < 64; i++ {
+		collide = append(collide, byte(200+i%40))
+	}
+	scripts := [][]byte{nil, first, collide}
 	n := 0
 	for _, ttl := range []time.Duration{0, 5 * time.Second} {
 		for si, script := range scripts {
